@@ -20,11 +20,34 @@ func anyLab(e *Exec, ls ...string) bool {
 	return false
 }
 
+func prof(name string, over map[Op]int) Profile {
+	return Profile{Name: name, Setup: 12, MinSteps: 25, MaxSteps: 80, MaxConns: 6, W: weights(over), JoinBias: 85, BigBody: 10, Latency: true, Receipts: true}
+}
+
+const genRule = "scripts drawn by rapid: 2-6 connection slots, initial joins, <=12 state-building steps, 25-80 weighted steps over all request kinds with abstract arguments (live/dead/foreign/zero/never-issued ids) resolved against the reference model, any module subset, run on the handler-level driver; "
+
+var refusals = []string{"entity_del_unknown", "entity_del_foreign", "comp_add_refused", "comp_del_absent", "sub_unregistered", "action_refused", "asset_refused", "join_refused_not_found", "join_already_joined", "custom_too_large"}
+
+func TestC01Model(t *testing.T) {
+	ModelCheck{Prop: "C01", Part: "H", Profile: prof("c01", map[Op]int{OpJoin: 7, OpPose: 10, OpTick: 10}),
+		Rule: genRule + "non-trivial = distinct script in which some observer applied >=3 broadcasts of >=2 kinds to its replica and a later joiner was handed a non-empty session (snapshot compared with the model)",
+		NT: func(e *Exec, sc Script) bool {
+			return lab(e, "observer_3_broadcasts_2_kinds", "join_existing_with_entities")
+		},
+	}.Run(t)
+}
+
+func TestC02Model(t *testing.T) {
+	ModelCheck{Prop: "C02", Part: "H", Profile: prof("c02", map[Op]int{OpJoin: 4, OpClose: 3, OpEntityAdd: 16, OpCustom: 8, OpPose: 10, OpTick: 10}),
+		Rule: genRule + "non-trivial = distinct script with an accepted change relayed to >=2 other members and >=1 refused request",
+		NT:   func(e *Exec, sc Script) bool { return lab(e, "relay_to_2plus") && anyLab(e, refusals...) },
+	}.Run(t)
+}
+
 func TestC04Model(t *testing.T) {
 	ModelCheck{
-		Prop: "C04", Part: "H",
-		Profile: Profile{Name: "c04", Setup: 12, MinSteps: 15, MaxSteps: 60, MaxConns: 5, W: weights(nil), JoinBias: 80, BigBody: 10, NilSub: false, Latency: true, Receipts: true},
-		Rule:    "rapid-generated scripts (<=5 connections, <=50 steps + joins, any module subset) run on driver H; non-trivial = distinct script that reaches >=4 distinct (request kind, outcome) classes incl. >=1 refusal and >=1 not-joined request",
+		Prop: "C04", Part: "H", Profile: prof("c04", nil),
+		Rule: genRule + "non-trivial = distinct script that reaches >=4 distinct (request kind, outcome) classes incl. >=1 refusal and >=1 request from a connection that is in no session",
 		NT: func(e *Exec, sc Script) bool {
 			n := 0
 			for _, l := range []string{"entity_add", "entity_del", "entity_del_unknown", "entity_del_foreign", "comp_add", "comp_add_refused", "comp_del", "comp_del_absent", "sub", "sub_unregistered", "unsub", "type_add", "type_add_again", "action_set", "action_refused", "asset_add", "asset_refused", "join_refused_not_found", "join_already_joined", "custom_too_large", "latency_bad_count", "receipt_accepted", "receipt_empty_field", "comp_list", "dagaz_query"} {
@@ -32,7 +55,85 @@ func TestC04Model(t *testing.T) {
 					n++
 				}
 			}
-			return n >= 4 && anyLab(e, "entity_del_unknown", "entity_del_foreign", "comp_add_refused", "comp_del_absent", "sub_unregistered", "action_refused", "asset_refused", "join_refused_not_found") && lab(e, "not_joined_request")
+			return n >= 4 && anyLab(e, refusals...) && lab(e, "not_joined_request")
+		},
+	}.Run(t)
+}
+
+func TestC05Model(t *testing.T) {
+	p := prof("c05", map[Op]int{OpEntityAdd: 18, OpEntityDel: 12, OpPose: 14, OpAsset: 12, OpClose: 4, OpJoin: 6, OpTick: 10})
+	ModelCheck{Prop: "C05", Part: "H", Profile: p,
+		Rule: genRule + "weights favour entity delete / pose / asset requests; non-trivial = distinct script with >=1 foreign attempt (delete, pose or asset) on a live entity and >=1 attempt on an entity whose owner has left",
+		NT: func(e *Exec, sc Script) bool {
+			return anyLab(e, "entity_del_foreign", "pose_foreign", "asset_foreign") && lab(e, "foreign_attempt_owner_gone")
+		},
+	}.Run(t)
+}
+
+func TestC06Model(t *testing.T) {
+	p := prof("c06", map[Op]int{OpEntityAdd: 18, OpClose: 6, OpJoin: 8, OpCompAdd: 12, OpAction: 10, OpAsset: 10, OpSub: 8, OpNoTS: 1})
+	ModelCheck{Prop: "C06", Part: "H", Profile: p,
+		Rule: genRule + "departures by close, handler error, frame without timestamp and session switch; non-trivial = distinct script in which a leaver owns >=1 persistent and >=1 non-persistent entity with attachments while another member remains",
+		NT:   func(e *Exec, sc Script) bool { return lab(e, "departure_rich") },
+	}.Run(t)
+}
+
+func TestC07Model(t *testing.T) {
+	p := prof("c07", map[Op]int{OpJoin: 30, OpClose: 12, OpEntityAdd: 6})
+	p.Setup = 3
+	ModelCheck{Prop: "C07", Part: "H", Profile: p, Registry: true,
+		Rule: genRule + "weights favour join/switch/close cycles; after every step the registry (id resolution for live and ended sessions), the session gauge and the number of frame-worker goroutines are compared with the model; non-trivial = distinct script with >=2 session ids reused after their session ended",
+		NT:   func(e *Exec, sc Script) bool { return e.Labels["session_id_reused"] >= 2 },
+	}.Run(t)
+}
+
+func TestC10Model(t *testing.T) {
+	p := prof("c10", map[Op]int{OpJoin: 20, OpClose: 8, OpEntityAdd: 16, OpEntityDel: 10, OpTypeAdd: 10, OpAsset: 10})
+	ModelCheck{Prop: "C10", Part: "H", Profile: p,
+		Rule: genRule + "weights favour allocations and releases (session create/end, joins, entity add/delete, type registration, asset add); non-trivial = distinct script with a reused session id, >=1 entity deletion followed by further entity adds, and >=2 type registrations",
+		NT: func(e *Exec, sc Script) bool {
+			return lab(e, "session_id_reused", "entity_del") && e.Labels["entity_add"]+e.Labels["entity_add_persistent"] >= 3 && e.Labels["type_add"] >= 2
+		},
+	}.Run(t)
+}
+
+func TestC12Model(t *testing.T) {
+	p := prof("c12", map[Op]int{OpTypeAdd: 10, OpCompAdd: 18, OpCompDel: 10, OpCompUpdate: 14, OpCompList: 8, OpSub: 8, OpEntityDel: 8, OpGetName: 4, OpGetID: 4, OpTick: 12, OpJoin: 4, OpClose: 2})
+	ModelCheck{Prop: "C12", Part: "H", Profile: p,
+		Rule: genRule + "weights favour component requests; non-trivial = distinct script with an update of a never-added component while the type has a subscriber, a cascade (entity with components removed) and a list after a delete",
+		NT: func(e *Exec, sc Script) bool {
+			return lab(e, "comp_update_absent_with_subscriber", "comp_list_after_delete") && anyLab(e, "entity_del_with_attachments", "departure_removes_attachments")
+		},
+	}.Run(t)
+}
+
+func TestC13Model(t *testing.T) {
+	p := prof("c13", map[Op]int{OpTypeAdd: 10, OpCompAdd: 16, OpCompDel: 8, OpCompUpdate: 16, OpSub: 16, OpUnsub: 8, OpTick: 14, OpJoin: 4, OpClose: 3})
+	ModelCheck{Prop: "C13", Part: "H", Profile: p,
+		Rule: genRule + "weights favour subscribe/unsubscribe and component changes; non-trivial = distinct script with >=2 subscribers of one type and a component change of a type after a subscriber of it unsubscribed or left",
+		NT:   func(e *Exec, sc Script) bool { return lab(e, "two_subscribers", "comp_change_after_unsubscribe") },
+	}.Run(t)
+}
+
+func TestC14Model(t *testing.T) {
+	p := prof("c14", map[Op]int{OpCustom: 40, OpJoin: 6, OpClose: 3})
+	p.BigBody = 45
+	p.Setup = 2
+	ModelCheck{Prop: "C14", Part: "H", Profile: p,
+		Rule: genRule + "weights favour custom messages, 45% with a body of 10238..10242/20480/65536 bytes; non-trivial = distinct script with a body within 2 bytes of the limit (either side) or a recipient list holding a duplicate, a stranger and the sender together",
+		NT: func(e *Exec, sc Script) bool {
+			return anyLab(e, "custom_at_limit", "custom_too_large", "custom_dup_stranger_self")
+		},
+	}.Run(t)
+}
+
+func TestC16Model(t *testing.T) {
+	p := prof("c16", map[Op]int{OpAction: 30, OpAsset: 18, OpEntityAdd: 14, OpEntityDel: 8, OpJoin: 7, OpClose: 4})
+	p.Modules = []string{"vikja", "odal"}
+	ModelCheck{Prop: "C16", Part: "H", Profile: p,
+		Rule: genRule + "vikja+odal loaded, weights favour entity actions (timestamps 0, 1, 5, 7, 10, year 9999, -1; equal and decreasing) and asset adds; non-trivial = distinct script with an older action refused, an asset replaced and a later joiner handed the module state",
+		NT: func(e *Exec, sc Script) bool {
+			return lab(e, "action_older_refused", "asset_replaced", "join_existing_with_attachments")
 		},
 	}.Run(t)
 }
